@@ -42,7 +42,7 @@ fn main() {
     let sfx = std_suffixes();
 
     // (1) catalogue of records x deviations
-    let records = cat::tls_records(run.tier.pick(2, 4), thorough);
+    let records = cat::tls_records(run.tier.pick(2, 4), true);
     let nrec = records.len();
     sink.merge(struct_sweep(&run, &targets, &records, run.tier.pick(1, 2), &sfx, 48, &extra));
 
